@@ -152,45 +152,62 @@ theorem reportOK_snoc (out : List Ev) (rep : Report) (e : Ev) (hp : rep.pos < ou
   · exact c i hi
   · exact he r hr i hi
 
-theorem RInv.assignOne (st : RSt) (h : RInv st) (sc : Nat × Nat) : RInv { st with splits := assignOne st.splits sc } := by
+theorem RInv.assignOne (st : RSt) (h : RInv st) (sc : Nat × Nat) (hnot : ∀ r ∈ st.splits, r.split ≠ sc.1) :
+    RInv { st with splits := assignOne st.splits sc } := by
   unfold Splits.assignOne
-  by_cases hs : hasSplit st.splits sc.1 = true
-  · rw [if_pos hs]; exact h
-  · rw [if_neg hs]
-    have hnot : ∀ r ∈ st.splits, r.split ≠ sc.1 := by
-      intro r hr e; exact hs ((hasSplit_iff _ _).mpr ⟨r, hr, e⟩)
-    have hempty : recIdx sc.1 st.out = [] :=
-      recIdx_nil_of_not_mem _ _ (fun i hi => hs (h.held _ _ hi))
-    constructor
-    · simp only [List.map_append, List.map_cons, List.map_nil]
-      rw [List.nodup_append]
-      refine ⟨h.keys, by simp, ?_⟩
-      intro a ha b hb
-      obtain ⟨r, hr, rfl⟩ := List.mem_map.mp ha
-      simp only [List.mem_singleton] at hb
-      subst hb; exact hnot r hr
-    · intro r hr
-      rcases List.mem_append.mp hr with hr | hr
-      · exact h.cur r hr
-      · simp only [List.mem_singleton] at hr
-        subst hr; simp [hempty]
-    · intro s i hi
-      have := h.held s i hi
-      rw [hasSplit_iff] at this ⊢
-      obtain ⟨r, hr, e⟩ := this
-      exact ⟨r, List.mem_append_left _ hr, e⟩
-    · intro rep hrep
-      obtain ⟨a, b, c⟩ := h.reps rep hrep
-      refine ⟨a, b, ?_⟩
-      intro r hr
-      obtain ⟨r', hr', e⟩ := c r hr
-      exact ⟨r', List.mem_append_left _ hr', e⟩
+  have hs : ¬ hasSplit st.splits sc.1 = true := by
+    intro hh
+    obtain ⟨r, hr, e⟩ := (hasSplit_iff _ _).mp hh
+    exact hnot r hr e
+  have hempty : recIdx sc.1 st.out = [] :=
+    recIdx_nil_of_not_mem _ _ (fun i hi => hs (h.held _ _ hi))
+  constructor
+  · simp only [List.map_append, List.map_cons, List.map_nil]
+    rw [List.nodup_append]
+    refine ⟨h.keys, by simp, ?_⟩
+    intro a ha b hb
+    obtain ⟨r, hr, rfl⟩ := List.mem_map.mp ha
+    simp only [List.mem_singleton] at hb
+    subst hb; exact hnot r hr
+  · intro r hr
+    rcases List.mem_append.mp hr with hr | hr
+    · exact h.cur r hr
+    · simp only [List.mem_singleton] at hr
+      subst hr; simp [hempty]
+  · intro s i hi
+    have := h.held s i hi
+    rw [hasSplit_iff] at this ⊢
+    obtain ⟨r, hr, e⟩ := this
+    exact ⟨r, List.mem_append_left _ hr, e⟩
+  · intro rep hrep
+    obtain ⟨a, b, c⟩ := h.reps rep hrep
+    refine ⟨a, b, ?_⟩
+    intro r hr
+    obtain ⟨r', hr', e⟩ := c r hr
+    exact ⟨r', List.mem_append_left _ hr', e⟩
 
-theorem RInv.assign (l : List (Nat × Nat)) (st : RSt) (h : RInv st) :
+theorem foldl_assignOne_keys (l : List (Nat × Nat)) (ss : List RSplit) :
+    (l.foldl Splits.assignOne ss).map (·.split) = ss.map (·.split) ++ l.map (·.1) := by
+  induction l generalizing ss with
+  | nil => simp
+  | cons a l ih => simp [List.foldl_cons, ih, Splits.assignOne, List.append_assoc]
+
+theorem RInv.assign (l : List (Nat × Nat)) (st : RSt) (h : RInv st)
+    (hf : (st.splits.map (·.split) ++ l.map (·.1)).Nodup) :
     RInv { st with splits := l.foldl Splits.assignOne st.splits } := by
   induction l generalizing st with
   | nil => exact h
-  | cons a l ih => exact ih _ (RInv.assignOne st h a)
+  | cons a l ih =>
+    have hnot : ∀ r ∈ st.splits, r.split ≠ a.1 := by
+      intro r hr e
+      have := (List.nodup_append.mp hf).2.2 r.split (List.mem_map_of_mem hr) a.1 (by simp)
+      exact this e
+    apply ih _ (RInv.assignOne st h a hnot)
+    have : (Splits.assignOne st.splits a).map (·.split) = st.splits.map (·.split) ++ [a.1] := by
+      simp [Splits.assignOne]
+    show ((Splits.assignOne st.splits a).map (·.split) ++ l.map (·.1)).Nodup
+    rw [this, List.append_assoc]
+    simpa using hf
 
 theorem RInv.readOne (st : RSt) (h : RInv st) (s : Nat) : RInv (readOne st s) := by
   unfold Splits.readOne
@@ -292,17 +309,40 @@ theorem RInv.barrier (st : RSt) (h : RInv st) (n : Nat) : RInv (rstep st (.barri
       · intro r hr
         exact ⟨r, hr, rfl, Nat.le_refl _⟩
 
-theorem RInv.step (st : RSt) (h : RInv st) (a : RAct) : RInv (rstep st a) := by
-  cases a with
-  | assign l => exact RInv.assign l st h
-  | read b => exact RInv.read b st h
-  | barrier n => exact RInv.barrier st h n
+theorem read_keys (b : List Nat) (st : RSt) :
+    (b.foldl Splits.readOne st).splits.map (·.split) = st.splits.map (·.split) := by
+  induction b generalizing st with
+  | nil => rfl
+  | cons a b ih =>
+    rw [List.foldl_cons, ih]
+    unfold Splits.readOne
+    cases curOf st.splits a with
+    | none => rfl
+    | some c => exact advance_keys _ _
 
-theorem RInv.run (as : List RAct) (st : RSt) (h : RInv st) : RInv (rrun st as) := by
+theorem RInv.run (as : List RAct) (st : RSt) (h : RInv st)
+    (hf : (st.splits.map (·.split) ++ assignedIds as).Nodup) : RInv (rrun st as) := by
   induction as generalizing st with
   | nil => exact h
-  | cons a as ih => exact ih _ (RInv.step st h a)
+  | cons a as ih =>
+    cases a with
+    | assign l =>
+      have hf' : (st.splits.map (·.split) ++ (l.map (·.1) ++ assignedIds as)).Nodup := hf
+      rw [← List.append_assoc] at hf'
+      apply ih _ (RInv.assign l st h (List.nodup_append.mp hf').1)
+      show (((l.foldl Splits.assignOne st.splits).map (·.split)) ++ assignedIds as).Nodup
+      rw [foldl_assignOne_keys]; exact hf'
+    | read b =>
+      apply ih _ (RInv.read b st h)
+      show (((b.foldl Splits.readOne st).splits.map (·.split)) ++ assignedIds as).Nodup
+      rw [read_keys]; exact hf
+    | barrier n => exact ih _ (RInv.barrier st h n) hf
 
+theorem assignedIds_append (a b : List RAct) : assignedIds (a ++ b) = assignedIds a ++ assignedIds b := by
+  induction a with
+  | nil => rfl
+  | cons x a ih =>
+    cases x <;> simp [assignedIds, ih, List.append_assoc]
 
 /-! ## A read is one atomic action of the loop -/
 
@@ -340,31 +380,43 @@ theorem read_atomic (b : List Nat) (st : RSt) :
 theorem rrun_append (st : RSt) (a b : List RAct) : rrun st (a ++ b) = rrun (rrun st a) b := by
   simp [rrun, List.foldl_append]
 
-theorem kstep_is_rrun (k : KRd) (a : KAct) : ∃ ras, (kstep k a).1.r = rrun k.r ras := by
+/-- the shards a Kinesis-level history assigns to the reader -/
+def kAssignedIds : List KAct → List Nat
+  | [] => []
+  | .assign l :: as => l.map (·.1) ++ kAssignedIds as
+  | _ :: as => kAssignedIds as
+
+theorem kstep_is_rrun (k : KRd) (a : KAct) :
+    ∃ ras, (kstep k a).1.r = rrun k.r ras ∧ assignedIds ras = kAssignedIds [a] := by
   cases a with
-  | put s n => exact ⟨[], rfl⟩
-  | assign l => exact ⟨[.assign l], rfl⟩
-  | fail n => exact ⟨[], rfl⟩
-  | barrier n => exact ⟨[.barrier n], rfl⟩
+  | put s n => exact ⟨[], rfl, rfl⟩
+  | assign l => exact ⟨[.assign l], rfl, by simp [assignedIds, kAssignedIds]⟩
+  | fail n => exact ⟨[], rfl, rfl⟩
+  | barrier n => exact ⟨[.barrier n], rfl, rfl⟩
   | read =>
     simp only [kstep]
     cases hs : k.r.splits[k.idx]? with
-    | none => exact ⟨[], rfl⟩
+    | none => exact ⟨[], rfl, rfl⟩
     | some sp =>
       simp only
       split
-      · exact ⟨[], rfl⟩
-      · exact ⟨[.read (List.replicate (min k.limit (totalOf k.totals sp.split - sp.cur)) sp.split)], rfl⟩
+      · exact ⟨[], rfl, rfl⟩
+      · exact ⟨[.read (List.replicate (min k.limit (totalOf k.totals sp.split - sp.cur)) sp.split)], rfl, rfl⟩
 
-theorem krun_is_rrun (as : List KAct) (k : KRd) : ∃ ras, (krun k as).r = rrun k.r ras := by
+theorem kAssignedIds_cons (a : KAct) (as : List KAct) : kAssignedIds (a :: as) = kAssignedIds [a] ++ kAssignedIds as := by
+  cases a <;> simp [kAssignedIds]
+
+theorem krun_is_rrun (as : List KAct) (k : KRd) :
+    ∃ ras, (krun k as).r = rrun k.r ras ∧ assignedIds ras = kAssignedIds as := by
   induction as generalizing k with
-  | nil => exact ⟨[], rfl⟩
+  | nil => exact ⟨[], rfl, rfl⟩
   | cons a as ih =>
-    obtain ⟨r1, h1⟩ := kstep_is_rrun k a
-    obtain ⟨r2, h2⟩ := ih (kstep k a).1
-    refine ⟨r1 ++ r2, ?_⟩
-    show (krun (kstep k a).1 as).r = _
-    rw [h2, h1, rrun_append]
+    obtain ⟨r1, h1, e1⟩ := kstep_is_rrun k a
+    obtain ⟨r2, h2, e2⟩ := ih (kstep k a).1
+    refine ⟨r1 ++ r2, ?_, ?_⟩
+    · show (krun (kstep k a).1 as).r = _
+      rw [h2, h1, rrun_append]
+    · rw [assignedIds_append, e1, e2, ← kAssignedIds_cons]
 
 /-! ## Kinesis split tracker -/
 
@@ -866,7 +918,7 @@ theorem Inv.envMerge (s : Sp) (h : Inv s) (i j : Nat) : Inv ((envMerge s i j).ge
         rcases hp with hp | hp <;> omega
       | k + 1, hk => simp at hk
 
-theorem Inv.load (keep : Bool) (s : Sp) (h : Inv s) : Inv (load keep s) := by
+theorem Inv.load (keep readd : Bool) (s : Sp) (h : Inv s) : Inv (load keep readd s) := by
   unfold Splits.load
   cases hck : s.ck with
   | none =>
@@ -888,41 +940,54 @@ theorem Inv.load (keep : Bool) (s : Sp) (h : Inv s) : Inv (load keep s) := by
   | some c =>
     simp only
     have hc := h.CK c hck
-    -- the loaded shards
-    have hF : ∀ sh, sh ∈ (loadTr keep c).known → sh ∈ c.tr.known ∧ (sh.id ∈ c.tr.assigned ∨ keep = true) := by
+    -- the loaded shards: tracked at the checkpoint (assigned, or withheld when kept), or re-added with their position
+    have hR : ∀ sh, sh ∈ (if readd then readdList s.stream c else []) →
+        readd = true ∧ s.stream[sh.id]? = some sh ∧ sh.id < c.tr.next := by
+      intro sh hs
+      cases hr : readd with
+      | false => rw [hr] at hs; simp at hs
+      | true =>
+        rw [hr] at hs
+        simp only [if_true, readdList, List.mem_filter, Bool.and_eq_true, decide_eq_true_eq] at hs
+        obtain ⟨hm, _, hlt⟩ := hs
+        obtain ⟨j, hj⟩ := List.mem_iff_getElem?.mp hm
+        have := (h.E1 _ _ hj).1
+        exact ⟨rfl, by rw [this]; exact hj, hlt⟩
+    have hF : ∀ sh, sh ∈ (loadTr keep readd s.stream c).known →
+        (sh ∈ c.tr.known ∧ (sh.id ∈ c.tr.assigned ∨ keep = true)) ∨ sh ∈ (if readd then readdList s.stream c else []) := by
       intro sh hs
       rcases mem_addSplits _ _ _ hs with h1 | h1
       · simp at h1
-      · have := List.mem_filter.mp h1
-        refine ⟨this.1, ?_⟩
-        have h2 := this.2
-        simp only [isAssigned, Bool.or_eq_true] at h2
-        rcases h2 with h2 | h2
-        · exact Or.inl (List.contains_iff_mem.mp h2)
-        · exact Or.inr h2
-    have hFk : ∀ sh ∈ c.tr.known, (sh.id ∈ c.tr.assigned ∨ keep = true) → knownId (loadTr keep c).known sh.id = true := by
+      · rcases List.mem_append.mp h1 with h1 | h1
+        · have := List.mem_filter.mp h1
+          refine Or.inl ⟨this.1, ?_⟩
+          have h2 := this.2
+          simp only [isAssigned, Bool.or_eq_true] at h2
+          rcases h2 with h2 | h2
+          · exact Or.inl (List.contains_iff_mem.mp h2)
+          · exact Or.inr h2
+        · exact Or.inr h1
+    have hFk : ∀ sh ∈ c.tr.known, (sh.id ∈ c.tr.assigned ∨ keep = true) → knownId (loadTr keep readd s.stream c).known sh.id = true := by
       intro sh hs hor
       apply (knownId_addSplits _ _ _).mpr
-      refine Or.inr ⟨sh, List.mem_filter.mpr ⟨hs, ?_⟩, rfl⟩
+      refine Or.inr ⟨sh, List.mem_append_left _ (List.mem_filter.mpr ⟨hs, ?_⟩), rfl⟩
       simp only [isAssigned, Bool.or_eq_true]
       rcases hor with h1 | h1
       · exact Or.inl (List.contains_iff_mem.mpr h1)
       · exact Or.inr h1
-    constructor
-    · exact h.E1
-    · intro sh hs; exact hc.K1 sh (hF sh hs).1
-    · exact nodup_addSplits _ _ (by simp)
-    · intro i hi; simp [loadTr] at hi
-    · simp
-    · intro i hi; simp at hi
-    · intro sh _ hl; simp at hl
-    · intro sh _ ha; simp [loadTr] at ha
-    · exact hc.N
-    · intro ht i hi
+    have hRk : ∀ sh ∈ (if readd then readdList s.stream c else []), knownId (loadTr keep readd s.stream c).known sh.id = true := by
+      intro sh hs
+      apply (knownId_addSplits _ _ _).mpr
+      exact Or.inr ⟨sh, List.mem_append_right _ hs, rfl⟩
+    -- what was tracked or finished at the checkpoint is tracked or finished after the load
+    have carry : (s.tainted || !c.clean || (!keep && !c.good)) = false → ∀ i, (i < c.tr.next ∨ keep = true) →
+        (knownId c.tr.known i = true ∨ i ∈ c.done) →
+        knownId (loadTr keep readd s.stream c).known i = true ∨
+          i ∈ (if readd then c.done.filter (fun i => !((readdList s.stream c).map (·.id)).contains i) else c.done) := by
+      intro ht i hi hkd
       simp only [Bool.or_eq_false_iff, Bool.not_eq_false', Bool.and_eq_false_imp, Bool.not_eq_true'] at ht
-      obtain ⟨⟨_, hcl⟩, hgood⟩ := ht
-      show knownId (loadTr keep c).known i = true ∨ i ∈ c.done
-      rcases hc.Q hcl i hi with h1 | h1
+      obtain ⟨⟨_, _⟩, hgood⟩ := ht
+      rcases hkd with h1 | h1
       · obtain ⟨sh, hs, e⟩ := (knownId_iff _ _).mp h1
         subst e
         refine Or.inl (hFk sh hs ?_)
@@ -935,54 +1000,76 @@ theorem Inv.load (keep : Bool) (s : Sp) (h : Inv s) : Inv (load keep s) := by
             | false => have := hgood hk; rw [hgd] at this; exact Bool.noConfusion this
           rcases hc.G hg sh hs with h2 | h2
           · exact Or.inl h2
-          · have : sh.id < c.tr.next := hi
-            omega
-      · exact Or.inr h1
+          · rcases hi with hi | hi
+            · omega
+            · rw [hk] at hi; exact Bool.noConfusion hi
+      · cases hr : readd with
+        | false => right; simp only [Bool.false_eq_true, if_false]; exact h1
+        | true =>
+          simp only [if_true]
+          by_cases hm : i ∈ (readdList s.stream c).map (·.id)
+          · obtain ⟨sh, hs, e⟩ := List.mem_map.mp hm
+            left
+            have := hRk sh (by rw [hr]; exact hs)
+            rw [e, hr] at this; exact this
+          · right
+            apply List.mem_filter.mpr
+            refine ⟨h1, ?_⟩
+            cases hcn : ((readdList s.stream c).map (·.id)).contains i with
+            | false => rfl
+            | true => exact absurd (List.contains_iff_mem.mp hcn) hm
+    constructor
+    · exact h.E1
+    · intro sh hs
+      rcases hF sh hs with h1 | h1
+      · exact hc.K1 sh h1.1
+      · exact (hR sh h1).2.1
+    · exact nodup_addSplits _ _ (by simp)
+    · intro i hi; simp [loadTr] at hi
+    · simp
+    · intro i hi; simp at hi
+    · intro sh _ hl; simp at hl
+    · intro sh _ ha; simp [loadTr] at ha
+    · exact hc.N
+    · intro ht i hi
+      have hcl : c.clean = true := by
+        simp only [Bool.or_eq_false_iff, Bool.not_eq_false'] at ht
+        exact ht.1.2
+      exact carry ht i (Or.inl hi) (hc.Q hcl i hi)
     · intro ht sh hs i hi
-      simp only [Bool.or_eq_false_iff, Bool.not_eq_false', Bool.and_eq_false_imp, Bool.not_eq_true'] at ht
-      obtain ⟨⟨_, hcl⟩, hgood⟩ := ht
-      show knownId (loadTr keep c).known i = true ∨ i ∈ c.done
-      have hsF := hF sh hs
-      rcases hc.R hcl sh hsF.1 i hi with h1 | h1
-      · obtain ⟨t, hts, e⟩ := (knownId_iff _ _).mp h1
-        subst e
-        refine Or.inl (hFk t hts ?_)
-        cases hk : keep with
-        | true => exact Or.inr rfl
-        | false =>
-          have hg : c.good = true := by
-            cases hgd : c.good with
-            | true => rfl
-            | false => have := hgood hk; rw [hgd] at this; exact Bool.noConfusion this
-          rcases hc.G hg t hts with h2 | h2
-          · exact Or.inl h2
-          · -- `sh` was loaded without `keep`, so it is assigned and lies below `next`
-            rcases hsF.2 with h3 | h3
-            · have := hc.L2 sh hsF.1 h3; omega
-            · rw [hk] at h3; exact Bool.noConfusion h3
-      · exact Or.inr h1
+      have hcl : c.clean = true := by
+        simp only [Bool.or_eq_false_iff, Bool.not_eq_false'] at ht
+        exact ht.1.2
+      rcases hF sh hs with h1 | h1
+      · have hkd := hc.R hcl sh h1.1 i hi
+        rcases h1.2 with h3 | h3
+        · have := hc.L2 sh h1.1 h3
+          exact carry ht i (Or.inl (by omega)) hkd
+        · exact carry ht i (Or.inr h3) hkd
+      · have := (hR sh h1).2.2
+        exact carry ht i (Or.inl (by omega)) (hc.Q hcl i (by omega))
     · intro _ i hi; simp at hi
     · intro c' hc'; exact h.CK c' (by rw [hck]; exact hc')
 
-theorem Inv.restart (keep : Bool) (s : Sp) (h : Inv s) : Inv (restart keep s).1 :=
-  Inv.assignAvail _ (Inv.discover _ (Inv.load keep s h))
+theorem Inv.restart (keep readd : Bool) (s : Sp) (h : Inv s) : Inv (restart keep readd s).1 :=
+  Inv.assignAvail _ (Inv.discover _ (Inv.load keep readd s h))
 
-theorem Inv.step (keep : Bool) (s : Sp) (h : Inv s) (a : Act) : Inv (step keep s a).1 := by
+theorem Inv.step (keep readd : Bool) (s : Sp) (h : Inv s) (a : Act) : Inv (step keep readd s a).1 := by
   cases a with
-  | start => exact Inv.restart keep s h
+  | start => exact Inv.restart keep readd s h
   | tick => exact Inv.assignAvail _ (Inv.discover s h)
   | finish ids => exact Inv.assignAvail _ (Inv.remove s h ids)
   | ckpt st => exact Inv.checkpoint s h st
   | split i a => exact Inv.envSplit s h i a
   | merge i j => exact Inv.envMerge s h i j
 
-theorem run_cons (keep : Bool) (s : Sp) (a : Act) (as : List Act) :
-    run keep s (a :: as) = run keep (step keep s a).1 as := rfl
+theorem run_cons (keep readd : Bool) (s : Sp) (a : Act) (as : List Act) :
+    run keep readd s (a :: as) = run keep readd (step keep readd s a).1 as := rfl
 
-theorem Inv.run (keep : Bool) (as : List Act) (s : Sp) (h : Inv s) : Inv (run keep s as) := by
+theorem Inv.run (keep readd : Bool) (as : List Act) (s : Sp) (h : Inv s) : Inv (run keep readd s as) := by
   induction as generalizing s with
   | nil => exact h
-  | cons a as ih => rw [run_cons]; exact ih _ (Inv.step keep s h a)
+  | cons a as ih => rw [run_cons]; exact ih _ (Inv.step keep readd s h a)
 
 theorem Inv.init (shards runners : Nat) : Inv (initSp shards runners) := by
   constructor
@@ -1031,27 +1118,27 @@ structure Clean (s : Sp) : Prop where
   t : s.tainted = false
   c : ∀ c, s.ck = some c → c.clean = true
 
-theorem Clean.step (s : Sp) (h : Clean s) (a : Act) : Clean (Splits.step true s a).1 := by
+theorem Clean.step (readd : Bool) (s : Sp) (h : Clean s) (a : Act) : Clean (Splits.step true readd s a).1 := by
   cases a with
   | start =>
-    have h1 := assignAvail_tainted (discover (load true s))
-    have hl : Clean (load true s) := by
+    have h1 := assignAvail_tainted (discover (load true readd s))
+    have hl : Clean (load true readd s) := by
       unfold Splits.load
       cases hck : s.ck with
       | none => exact ⟨h.t, fun c hc => by simp at hc⟩
       | some c0 =>
         refine ⟨?_, fun c hc => h.c c (by rw [hck]; exact hc)⟩
         simp [h.t, h.c c0 hck]
-    exact ⟨by rw [show (Splits.step true s .start).1 = (assignAvail (discover (load true s))).1 from rfl, h1.1]; exact hl.t,
-           fun c hc => hl.c c (by rw [show (Splits.step true s .start).1 = (assignAvail (discover (load true s))).1 from rfl, h1.2] at hc; exact hc)⟩
+    exact ⟨by rw [show (Splits.step true readd s .start).1 = (assignAvail (discover (load true readd s))).1 from rfl, h1.1]; exact hl.t,
+           fun c hc => hl.c c (by rw [show (Splits.step true readd s .start).1 = (assignAvail (discover (load true readd s))).1 from rfl, h1.2] at hc; exact hc)⟩
   | tick =>
     have h1 := assignAvail_tainted (discover s)
-    exact ⟨by rw [show (Splits.step true s .tick).1 = (assignAvail (discover s)).1 from rfl, h1.1]; exact h.t,
-           fun c hc => h.c c (by rw [show (Splits.step true s .tick).1 = (assignAvail (discover s)).1 from rfl, h1.2] at hc; exact hc)⟩
+    exact ⟨by rw [show (Splits.step true readd s .tick).1 = (assignAvail (discover s)).1 from rfl, h1.1]; exact h.t,
+           fun c hc => h.c c (by rw [show (Splits.step true readd s .tick).1 = (assignAvail (discover s)).1 from rfl, h1.2] at hc; exact hc)⟩
   | finish ids =>
     have h1 := assignAvail_tainted (remove s ids)
-    exact ⟨by rw [show (Splits.step true s (.finish ids)).1 = (assignAvail (remove s ids)).1 from rfl, h1.1]; exact h.t,
-           fun c hc => h.c c (by rw [show (Splits.step true s (.finish ids)).1 = (assignAvail (remove s ids)).1 from rfl, h1.2] at hc; exact hc)⟩
+    exact ⟨by rw [show (Splits.step true readd s (.finish ids)).1 = (assignAvail (remove s ids)).1 from rfl, h1.1]; exact h.t,
+           fun c hc => h.c c (by rw [show (Splits.step true readd s (.finish ids)).1 = (assignAvail (remove s ids)).1 from rfl, h1.2] at hc; exact hc)⟩
   | ckpt st =>
     refine ⟨h.t, ?_⟩
     intro c hc
@@ -1076,82 +1163,215 @@ theorem Clean.step (s : Sp) (h : Clean s) (a : Act) : Clean (Splits.step true s 
       | none => exact h
       | some b => exact ⟨h.t, h.c⟩
 
-theorem Clean.run (as : List Act) (s : Sp) (h : Clean s) : Clean (run true s as) := by
+theorem Clean.run (readd : Bool) (as : List Act) (s : Sp) (h : Clean s) : Clean (run true readd s as) := by
   induction as generalizing s with
   | nil => exact h
-  | cons a as ih => rw [run_cons]; exact ih _ (Clean.step s h a)
+  | cons a as ih => rw [run_cons]; exact ih _ (Clean.step readd s h a)
 
-/-- restore hands out every shard that was assigned at the checkpoint -/
-theorem restart_assigns (keep : Bool) (s : Sp) (h : Inv s) (c : Ckpt) (hck : s.ck = some c)
+/-- after a restart every shard the new splitter tracks was handed out in its first call, with the reported cursor,
+or waits for a tracked parent -/
+theorem restart_hands_out (keep readd : Bool) (s : Sp) (sh : Shard)
+    (hs : sh ∈ (discover (load keep readd s)).tr.known) (hna : (load keep readd s).tr.assigned = []) :
+    (∃ call ∈ (restart keep readd s).2,
+        (uidx sh.lo sh.hi (load keep readd s).runners, sh.id, cursorOf (load keep readd s).cursors sh.id) ∈ call) ∨
+    ∃ p ∈ sh.parents, knownId (discover (load keep readd s)).tr.known p = true := by
+  by_cases hp : ∃ p ∈ sh.parents, knownId (discover (load keep readd s)).tr.known p = true
+  · exact Or.inr hp
+  · left
+    have hav : sh ∈ available (discover (load keep readd s)).tr := by
+      apply (mem_available _ _).mpr
+      refine ⟨hs, ?_, ?_⟩
+      · show sh.id ∉ (load keep readd s).tr.assigned
+        rw [hna]; simp
+      · intro p hpp
+        cases hc : knownId (discover (load keep readd s)).tr.known p with
+        | false => rfl
+        | true => exact absurd ⟨p, hpp, hc⟩ hp
+    show ∃ call ∈ (assignAvail (discover (load keep readd s))).2, _
+    unfold Splits.assignAvail
+    have hne : (available (discover (load keep readd s)).tr).isEmpty = false := by
+      cases hb : available (discover (load keep readd s)).tr with
+      | nil => rw [hb] at hav; simp at hav
+      | cons _ _ => rfl
+    simp only [hne]
+    refine ⟨_, List.mem_singleton.mpr rfl, ?_⟩
+    apply List.mem_map.mpr
+    exact ⟨sh, hav, rfl⟩
+
+theorem load_proj (keep readd : Bool) (s : Sp) (c : Ckpt) (hck : s.ck = some c) :
+    (load keep readd s).tr = loadTr keep readd s.stream c ∧ (load keep readd s).stream = s.stream ∧
+    (load keep readd s).runners = s.runners ∧ (load keep readd s).cursors = c.states := by
+  simp only [Splits.load, hck, and_self]
+
+/-- restore hands out every shard that was assigned at the checkpoint, unless the ideal splitter resumes a parent of
+it whose reported position had been dropped from the tracker -/
+theorem restart_assigns (keep readd : Bool) (s : Sp) (h : Inv s) (c : Ckpt) (hck : s.ck = some c)
     (sh : Shard) (hs : sh ∈ c.tr.known) (ha : sh.id ∈ c.tr.assigned) :
-    ∃ call ∈ (restart keep s).2, (uidx sh.lo sh.hi s.runners, sh.id, cursorOf c.states sh.id) ∈ call := by
+    (∃ call ∈ (restart keep readd s).2, (uidx sh.lo sh.hi s.runners, sh.id, cursorOf c.states sh.id) ∈ call) ∨
+    (readd = true ∧ ∃ p ∈ sh.parents, p ∈ (readdList s.stream c).map (·.id)) := by
   have hc := h.CK c hck
-  have el_tr : (load keep s).tr = loadTr keep c := by simp only [Splits.load, hck]
-  have el_st : (load keep s).stream = s.stream := by simp only [Splits.load, hck]
-  have el_ru : (load keep s).runners = s.runners := by simp only [Splits.load, hck]
-  have el_cu : (load keep s).cursors = c.states := by simp only [Splits.load, hck]
-  have hinF : sh ∈ c.tr.known.filter (fun t => isAssigned c.tr t || keep) := by
+  obtain ⟨el_tr, el_st, el_ru, el_cu⟩ := load_proj keep readd s c hck
+  have hinF : sh ∈ (c.tr.known.filter (fun t => isAssigned c.tr t || keep)) ++ (if readd then readdList s.stream c else []) := by
+    apply List.mem_append_left
     apply List.mem_filter.mpr
     refine ⟨hs, ?_⟩
     simp only [isAssigned, Bool.or_eq_true]
     exact Or.inl (List.contains_iff_mem.mpr ha)
-  have hloaded : sh ∈ (loadTr keep c).known := by
+  have hInv1 := Inv.load keep readd s h
+  have hstream : ∀ t ∈ (c.tr.known.filter (fun t => isAssigned c.tr t || keep)) ++ (if readd then readdList s.stream c else []),
+      s.stream[t.id]? = some t := by
+    intro t ht
+    rcases List.mem_append.mp ht with h1 | h1
+    · exact hc.K1 t (List.mem_filter.mp h1).1
+    · cases hr : readd with
+      | false => rw [hr] at h1; simp at h1
+      | true =>
+        rw [hr] at h1
+        simp only [if_true, readdList] at h1
+        obtain ⟨j, hj⟩ := List.mem_iff_getElem?.mp (List.mem_filter.mp h1).1
+        have := (h.E1 _ _ hj).1
+        rw [this]; exact hj
+  have hloaded : sh ∈ (loadTr keep readd s.stream c).known := by
     apply mem_addSplits_of _ _ _ (Or.inr hinF)
     intro t ht e
-    have h1 := hc.K1 t (List.mem_filter.mp ht).1
+    have h1 := hstream t ht
     have h2 := hc.K1 sh hs
     rw [e, h2] at h1
     exact (Option.some.inj h1).symm
-  have hInv1 := Inv.load keep s h
-  let s1 := load keep s
-  have hs1tr : s1.tr = loadTr keep c := el_tr
-  have hs1st : s1.stream = s.stream := el_st
-  have hknown2 : sh ∈ (discover s1).tr.known := by
-    show sh ∈ addSplits s1.tr.known (s1.stream.drop s1.tr.next)
-    apply mem_addSplits_of _ _ _ (Or.inl (hs1tr ▸ hloaded))
+  have hknown2 : sh ∈ (discover (load keep readd s)).tr.known := by
+    show sh ∈ addSplits (load keep readd s).tr.known ((load keep readd s).stream.drop (load keep readd s).tr.next)
+    apply mem_addSplits_of _ _ _ (Or.inl (el_tr ▸ hloaded))
     intro t ht e
-    have h1 := (mem_drop_stream s1 hInv1 _ t ht).1
+    have h1 := (mem_drop_stream _ hInv1 _ t ht).1
     have h2 := hc.K1 sh hs
-    rw [hs1st, e, h2] at h1
+    rw [el_st, e, h2] at h1
     exact (Option.some.inj h1).symm
-  have hpar : ∀ p ∈ sh.parents, knownId (discover s1).tr.known p = false := by
-    intro p hp
-    cases hk : knownId (discover s1).tr.known p with
-    | false => rfl
-    | true =>
-      exfalso
-      have hpl : p < sh.id := (h.E1 _ _ (hc.K1 sh hs)).2 p hp
-      rcases (knownId_addSplits _ _ _).mp hk with h1 | ⟨t, ht, e⟩
-      · rw [hs1tr] at h1
-        obtain ⟨t, ht, e⟩ := (knownId_iff _ _).mp h1
-        rcases mem_addSplits _ _ _ ht with h2 | h2
-        · simp at h2
-        · have := hc.W sh hs ha p hp
+  have hna : (load keep readd s).tr.assigned = [] := by rw [el_tr]; rfl
+  rcases restart_hands_out keep readd s sh hknown2 hna with h1 | ⟨p, hp, hk⟩
+  · left; rw [el_ru, el_cu] at h1; exact h1
+  · -- a tracked parent: not one that was tracked at the checkpoint, not a newly discovered one
+    have hpl : p < sh.id := (h.E1 _ _ (hc.K1 sh hs)).2 p hp
+    rcases (knownId_addSplits _ _ _).mp hk with h1 | ⟨t, ht, e⟩
+    · rw [el_tr] at h1
+      obtain ⟨t, ht, e⟩ := (knownId_iff _ _).mp h1
+      rcases mem_addSplits _ _ _ ht with h2 | h2
+      · simp at h2
+      · rcases List.mem_append.mp h2 with h2 | h2
+        · exfalso
+          have := hc.W sh hs ha p hp
           rw [(knownId_iff _ _).mpr ⟨t, (List.mem_filter.mp h2).1, e⟩] at this
           exact Bool.noConfusion this
-      · have h1 := (mem_drop_stream s1 hInv1 _ t ht).2
-        have h2 := hc.L2 sh hs ha
-        rw [hs1tr] at h1
-        have : (loadTr keep c).next = c.tr.next := rfl
-        omega
-  have hav : sh ∈ available (discover s1).tr := by
-    apply (mem_available _ _).mpr
-    refine ⟨hknown2, ?_, hpar⟩
-    show sh.id ∉ s1.tr.assigned
-    rw [hs1tr]; simp [loadTr]
-  show ∃ call ∈ (assignAvail (discover s1)).2, _
-  unfold Splits.assignAvail
-  have hne : (available (discover s1).tr).isEmpty = false := by
-    cases hb : available (discover s1).tr with
-    | nil => rw [hb] at hav; simp at hav
-    | cons _ _ => rfl
-  simp only [hne]
-  refine ⟨_, List.mem_singleton.mpr rfl, ?_⟩
-  apply List.mem_map.mpr
-  refine ⟨sh, hav, ?_⟩
-  have e1 : (discover s1).runners = s.runners := el_ru
-  have e2 : (discover s1).cursors = c.states := el_cu
-  rw [e1, e2]
+        · right
+          cases hr : readd with
+          | false => rw [hr] at h2; simp at h2
+          | true =>
+            rw [hr] at h2
+            exact ⟨rfl, p, hp, List.mem_map.mpr ⟨t, h2, e⟩⟩
+    · exfalso
+      have h1 := (mem_drop_stream _ hInv1 _ t ht).2
+      have h2 := hc.L2 sh hs ha
+      rw [el_tr] at h1
+      have : (loadTr keep readd s.stream c).next = c.tr.next := rfl
+      omega
+
+/-- what a restart tracks after `LoadSplits` and the first discovery -/
+theorem mem_discover_load (keep readd : Bool) (s : Sp) (h : Inv s) (c : Ckpt) (hck : s.ck = some c) (t : Shard)
+    (ht : t ∈ (c.tr.known.filter (fun t => isAssigned c.tr t || keep)) ++ (if readd then readdList s.stream c else []) ∨
+          t ∈ s.stream.drop c.tr.next) :
+    t ∈ (discover (load keep readd s)).tr.known := by
+  have hc := h.CK c hck
+  obtain ⟨el_tr, el_st, _, _⟩ := load_proj keep readd s c hck
+  have hInv1 := Inv.load keep readd s h
+  have hstream : ∀ u ∈ (c.tr.known.filter (fun t => isAssigned c.tr t || keep)) ++ (if readd then readdList s.stream c else []),
+      s.stream[u.id]? = some u := by
+    intro u hu
+    rcases List.mem_append.mp hu with h1 | h1
+    · exact hc.K1 u (List.mem_filter.mp h1).1
+    · cases hr : readd with
+      | false => rw [hr] at h1; simp at h1
+      | true =>
+        rw [hr] at h1
+        simp only [if_true, readdList] at h1
+        obtain ⟨j, hj⟩ := List.mem_iff_getElem?.mp (List.mem_filter.mp h1).1
+        have := (h.E1 _ _ hj).1
+        rw [this]; exact hj
+  have hdrop : ∀ u ∈ s.stream.drop c.tr.next, s.stream[u.id]? = some u := fun u hu => (mem_drop_stream s h _ u hu).1
+  have htS : s.stream[t.id]? = some t := by
+    rcases ht with h1 | h1
+    · exact hstream t h1
+    · exact hdrop t h1
+  have uniq : ∀ u, s.stream[u.id]? = some u → u.id = t.id → u = t := by
+    intro u hu e
+    rw [e, htS] at hu
+    exact (Option.some.inj hu).symm
+  show t ∈ addSplits (load keep readd s).tr.known ((load keep readd s).stream.drop (load keep readd s).tr.next)
+  rw [el_tr, el_st]
+  have hnext : (loadTr keep readd s.stream c).next = c.tr.next := rfl
+  rw [hnext]
+  apply mem_addSplits_of
+  · rcases ht with h1 | h1
+    · left
+      apply mem_addSplits_of _ _ _ (Or.inr h1)
+      intro u hu e; exact uniq u (hstream u hu) e
+    · exact Or.inr h1
+  · intro u hu e; exact uniq u (hdrop u hu) e
+
+/-- **every reported position is resumed**: a shard for which the checkpoint holds a position is handed out by the
+restart with that position or waits for a tracked parent — provided it was still tracked and assigned at the splitter
+checkpoint (or tracked and `keep`), or not yet passed by discovery, or `readd` -/
+theorem reported_resumed (keep readd : Bool) (s : Sp) (h : Inv s) (c : Ckpt) (hck : s.ck = some c)
+    (i : Nat) (sh : Shard) (hsh : s.stream[i]? = some sh) (hst : i ∈ c.states.map (·.1))
+    (hB : ¬ (knownId c.tr.known i = true ∧ (i ∈ c.tr.assigned ∨ keep = true)) → i < c.tr.next → readd = true) :
+    (∃ call ∈ (restart keep readd s).2, (uidx sh.lo sh.hi s.runners, i, cursorOf c.states i) ∈ call) ∨
+    ∃ p ∈ sh.parents, knownId (discover (load keep readd s)).tr.known p = true := by
+  have hc := h.CK c hck
+  obtain ⟨el_tr, _, el_ru, el_cu⟩ := load_proj keep readd s c hck
+  have hid : sh.id = i := (h.E1 _ _ hsh).1
+  have hmem : sh ∈ s.stream := List.mem_iff_getElem?.mpr ⟨i, hsh⟩
+  have hk : sh ∈ (discover (load keep readd s)).tr.known := by
+    apply mem_discover_load keep readd s h c hck
+    by_cases hA : knownId c.tr.known i = true ∧ (i ∈ c.tr.assigned ∨ keep = true)
+    · left; apply List.mem_append_left
+      obtain ⟨t, ht, e⟩ := (knownId_iff _ _).mp hA.1
+      have hts : t = sh := by
+        have := hc.K1 t ht
+        rw [e, hsh] at this
+        exact (Option.some.inj this).symm
+      subst hts
+      apply List.mem_filter.mpr
+      refine ⟨ht, ?_⟩
+      simp only [isAssigned, Bool.or_eq_true]
+      rcases hA.2 with a | a
+      · exact Or.inl (List.contains_iff_mem.mpr (hid ▸ a))
+      · exact Or.inr a
+    · by_cases hn : i < c.tr.next
+      · left; apply List.mem_append_right
+        rw [hB hA hn]
+        simp only [if_true, readdList]
+        apply List.mem_filter.mpr
+        refine ⟨hmem, ?_⟩
+        simp only [Bool.and_eq_true, Bool.not_eq_true', decide_eq_true_eq, Bool.and_eq_false_iff]
+        refine ⟨⟨List.contains_iff_mem.mpr (hid ▸ hst), ?_⟩, hid ▸ hn⟩
+        cases hkn : knownId c.tr.known sh.id with
+        | false => exact Or.inr rfl
+        | true =>
+          left
+          cases hia : isAssigned c.tr sh with
+          | false => rfl
+          | true =>
+            exfalso
+            apply hA
+            exact ⟨hid ▸ hkn, Or.inl (hid ▸ List.contains_iff_mem.mp hia)⟩
+      · right
+        apply List.mem_iff_getElem?.mpr
+        refine ⟨i - c.tr.next, ?_⟩
+        rw [List.getElem?_drop]
+        have : c.tr.next + (i - c.tr.next) = i := by omega
+        rw [this]; exact hsh
+  have hna : (load keep readd s).tr.assigned = [] := by rw [el_tr]; rfl
+  rcases restart_hands_out keep readd s sh hk hna with a | a
+  · left; rw [el_ru, el_cu, hid] at a; exact a
+  · exact Or.inr a
 
 theorem envSplit_log (s : Sp) (i a : Nat) : ((envSplit s i a).getD s).log = s.log := by
   unfold Splits.envSplit
@@ -1170,18 +1390,18 @@ theorem envMerge_log (s : Sp) (i j : Nat) : ((envMerge s i j).getD s).log = s.lo
     | none => rfl
     | some b => rfl
 
-theorem load_log (keep : Bool) (s : Sp) : (load keep s).log = [] := by
+theorem load_log (keep readd : Bool) (s : Sp) : (load keep readd s).log = [] := by
   unfold Splits.load
   cases s.ck <;> rfl
 
 /-- the log is exactly what the `AssignSplits` calls since the last (re)start handed out -/
-theorem step_log (keep : Bool) (s : Sp) (a : Act) :
-    (step keep s a).1.log = (match a with | .start => [] | _ => s.log) ++ callIds (step keep s a).2 := by
+theorem step_log (keep readd : Bool) (s : Sp) (a : Act) :
+    (step keep readd s a).1.log = (match a with | .start => [] | _ => s.log) ++ callIds (step keep readd s a).2 := by
   cases a with
   | start =>
-    show (assignAvail (discover (load keep s))).1.log = _
+    show (assignAvail (discover (load keep readd s))).1.log = _
     rw [assignAvail_log]
-    show (load keep s).log ++ _ = _
+    show (load keep readd s).log ++ _ = _
     rw [load_log]; rfl
   | tick => show (assignAvail (discover s)).1.log = _; rw [assignAvail_log]; rfl
   | finish ids => show (assignAvail (remove s ids)).1.log = _; rw [assignAvail_log]; rfl
@@ -1377,7 +1597,7 @@ theorem round_complete (s : Sp) (h : Inv s) (ht : s.tainted = false) :
       | true => exact absurd ⟨p, hp, hc⟩ hno
   · left; rw [ed]; exact hd
 
-theorem load_tainted_false (keep : Bool) (s : Sp) (h : (load keep s).tainted = false) : s.tainted = false := by
+theorem load_tainted_false (keep readd : Bool) (s : Sp) (h : (load keep readd s).tainted = false) : s.tainted = false := by
   unfold Splits.load at h
   cases hck : s.ck with
   | none => rw [hck] at h; exact h
@@ -1501,7 +1721,7 @@ theorem Tame.checkpoint (s : Sp) (h : Tame s) (st : List (Nat × Nat)) : Tame (c
   subst hc
   exact ⟨h.X hw, h.Y hw⟩
 
-theorem Tame.load (keep : Bool) (s : Sp) (h : Tame s) : Tame (load keep s) := by
+theorem Tame.load (keep readd : Bool) (s : Sp) (h : Tame s) : Tame (load keep readd s) := by
   unfold Splits.load
   cases hck : s.ck with
   | none =>
@@ -1510,15 +1730,35 @@ theorem Tame.load (keep : Bool) (s : Sp) (h : Tame s) : Tame (load keep s) := by
     · intro _ i hi; simp at hi
     · intro hw c hc; simp at hc
   | some c =>
+    have hdone : ∀ i, i ∈ (if readd then c.done.filter (fun i => !((readdList s.stream c).map (·.id)).contains i) else c.done) →
+        i ∈ c.done ∧ (readd = true → i ∉ (readdList s.stream c).map (·.id)) := by
+      intro i hi
+      cases hr : readd with
+      | false => rw [hr] at hi; exact ⟨hi, fun x => Bool.noConfusion x⟩
+      | true =>
+        rw [hr] at hi
+        simp only [if_true] at hi
+        have := List.mem_filter.mp hi
+        refine ⟨this.1, fun _ hm => ?_⟩
+        have h2 := this.2
+        rw [List.contains_iff_mem.mpr hm] at h2
+        exact Bool.noConfusion h2
     refine ⟨?_, ?_, ?_⟩
-    · intro hw sh hs
+    · intro hw sh hs hd
       have hw0 : s.wild = false := hw
+      obtain ⟨hd1, hd2⟩ := hdone _ hd
       rcases mem_addSplits _ _ _ hs with h1 | h1
       · simp at h1
-      · exact (h.CX hw0 c hck).1 sh (List.mem_filter.mp h1).1
+      · rcases List.mem_append.mp h1 with h1 | h1
+        · exact (h.CX hw0 c hck).1 sh (List.mem_filter.mp h1).1 hd1
+        · cases hr : readd with
+          | false => rw [hr] at h1; simp at h1
+          | true =>
+            rw [hr] at h1
+            exact hd2 hr (List.mem_map_of_mem h1)
     · intro hw i hi
       have hw0 : s.wild = false := hw
-      exact (h.CX hw0 c hck).2 i hi
+      exact (h.CX hw0 c hck).2 i (hdone i hi).1
     · intro hw c' hc'
       have hw0 : s.wild = false := hw
       exact h.CX hw0 c' (by rw [hck]; exact hc')
@@ -1542,19 +1782,19 @@ theorem Tame.envMerge (s : Sp) (h : Tame s) (i j : Nat) : Tame ((envMerge s i j)
     | none => exact h
     | some b => exact ⟨h.X, h.Y, h.CX⟩
 
-theorem Tame.step (keep : Bool) (s : Sp) (hI : Inv s) (h : Tame s) (a : Act) : Tame (step keep s a).1 := by
+theorem Tame.step (keep readd : Bool) (s : Sp) (hI : Inv s) (h : Tame s) (a : Act) : Tame (step keep readd s a).1 := by
   cases a with
-  | start => exact Tame.assignAvail _ (Tame.discover _ (Inv.load keep s hI) (Tame.load keep s h))
+  | start => exact Tame.assignAvail _ (Tame.discover _ (Inv.load keep readd s hI) (Tame.load keep readd s h))
   | tick => exact Tame.assignAvail _ (Tame.discover s hI h)
   | finish ids => exact Tame.assignAvail _ (Tame.remove s hI h ids)
   | ckpt st => exact Tame.checkpoint s h st
   | split i a => exact Tame.envSplit s h i a
   | merge i j => exact Tame.envMerge s h i j
 
-theorem Tame.run (keep : Bool) (as : List Act) (s : Sp) (hI : Inv s) (h : Tame s) : Tame (run keep s as) := by
+theorem Tame.run (keep readd : Bool) (as : List Act) (s : Sp) (hI : Inv s) (h : Tame s) : Tame (run keep readd s as) := by
   induction as generalizing s with
   | nil => exact h
-  | cons a as ih => rw [run_cons]; exact ih _ (Inv.step keep s hI a) (Tame.step keep s hI h a)
+  | cons a as ih => rw [run_cons]; exact ih _ (Inv.step keep readd s hI a) (Tame.step keep readd s hI h a)
 
 theorem Tame.init (shards runners : Nat) : Tame (initSp shards runners) := by
   refine ⟨?_, ?_, ?_⟩
